@@ -36,6 +36,7 @@ type checkSpec struct {
 }
 
 var checks = map[string]checkSpec{
+	"C05": {modDir: repoDir, pkg: "./internal/counter", test: "TestVerifC05", quickS: 150, thoroS: 1200, gomaxp: "2", floor: 1000, minClass: 6},
 	"C10": {modDir: repoDir, pkg: "./internal/counter", test: "TestVerifC10", quickS: 150, thoroS: 1200, gomaxp: "2", floor: 100000, minClass: 6},
 	"C06": {modDir: repoDir, pkg: "./internal/counter", test: "TestVerifC06", quickS: 120, thoroS: 900, gomaxp: "2", floor: 10000, minClass: 4},
 	"C04": {modDir: repoDir, pkg: "./internal/counter", test: "TestVerifC04", quickS: 240, thoroS: 1500, gomaxp: "2", floor: 1000, minClass: 5},
@@ -94,9 +95,18 @@ func goEnv() []string {
 	return append(env, "GOFLAGS=-mod=mod", "GOPROXY=off", "GOSUMDB=off", "GOTOOLCHAIN=local")
 }
 
+var cleanupDirs []string
+
+func exit(code int) {
+	for _, d := range cleanupDirs {
+		os.RemoveAll(d)
+	}
+	os.Exit(code)
+}
+
 func die(code int, format string, args ...any) {
 	fmt.Fprintf(os.Stderr, "vcheck: "+format+"\n", args...)
-	os.Exit(code)
+	exit(code)
 }
 
 func run(dir string, env []string, name string, args ...string) ([]byte, error) {
@@ -159,6 +169,16 @@ func main() {
 	if tier == "thorough" {
 		budget = spec.thoroS
 	}
+	scratchBase := "/dev/shm"
+	if fi, err := os.Stat(scratchBase); err != nil || !fi.IsDir() {
+		scratchBase = os.TempDir()
+	}
+	scratch, err := os.MkdirTemp(scratchBase, "verif-run-"+id+"-")
+	if err != nil {
+		die(2, "%v", err)
+	}
+	cleanupDirs = append(cleanupDirs, scratch)
+	defer os.RemoveAll(scratch)
 	outDir := filepath.Join(verifDir, ".build", "out", id)
 	os.RemoveAll(outDir)
 	os.MkdirAll(outDir, 0o755)
@@ -177,7 +197,7 @@ func main() {
 				gmp = "2"
 			}
 			cmd.Env = append(os.Environ(), "VERIF_TIER="+tier, fmt.Sprintf("VERIF_SHARD=%d", i), fmt.Sprintf("VERIF_NSHARDS=%d", n),
-				"VERIF_OUT="+out, fmt.Sprintf("VERIF_BUDGET_S=%d", budget), "GOMAXPROCS="+gmp, "VERIF_SEED="+os.Getenv("VERIF_SEED"))
+				"VERIF_OUT="+out, "VERIF_SCRATCH="+scratch, fmt.Sprintf("VERIF_BUDGET_S=%d", budget), "GOMAXPROCS="+gmp, "VERIF_SEED="+os.Getenv("VERIF_SEED"))
 			logf, _ := os.Create(filepath.Join(outDir, fmt.Sprintf("shard%d.log", i)))
 			cmd.Stdout, cmd.Stderr = logf, logf
 			err := cmd.Run()
@@ -351,7 +371,7 @@ func main() {
 	fmt.Printf("%s %s: evaluations=%d transitions=%d states=%d classes=%d exhaustive=%v violations=%d known=%d wall=%.1fs\n",
 		id, tier, m.Evaluations, m.Transitions, m.States, len(m.Classes), m.Exhaustive, nviol, len(seenKnown), time.Since(start).Seconds())
 	if nviol > 0 {
-		os.Exit(1)
+		exit(1)
 	}
 	if vac != "" {
 		die(2, "vacuous exploration: %s", vac)
